@@ -60,6 +60,8 @@ def check(model: Model, rep: Report, tier: str):
     with rep.isolated():
         h6(model, rep, cg)
     with rep.isolated():
+        h8(model, rep, cg)
+    with rep.isolated():
         h7(model, rep, cg, ef, keep=lambda f: "/structure/" in f.module.relpath.replace("\\", "/") or "/language/" in f.module.relpath.replace("\\", "/"))
     rep.analysed["call graph"] = dict(cg.res.stats)
 
@@ -92,6 +94,73 @@ def unique_identifier(model: Model, C: ClassInfo) -> Tuple[bool, str]:
             return True, n
         why = f"{post.qualname} does not increment {cname}.{counter} unconditionally"
     return False, why
+
+
+# Functions that key a table by circuit operations and have been read: the copy machinery (its exposure to value-equal sub-circuits is the recorded finding H4 / C05.K4)
+# and two sites whose keys are leaf operations of one listing.
+OPERATION_KEYED_TABLES = {
+    "DeclarativeCircuit.add_sub_circuit": "lookup {sub-structure: parent structure} handed to copy()",
+    "circuit_modifiers.replace_operation": "position lookup inside one listing",
+    "RelationLink.copy": "relation transfer lookup",
+    "MultiRelationLink.copy": "relation transfer lookup",
+    "CircuitCompositeOperation.copy": "relation / strategy transfer lookup",
+    "RegistryAcquisitionStrategy.copy": "strategy transfer lookup",
+    "SpaceSharedOperations.divide": "leaf two-qubit operations of one drawing",
+}
+
+
+def h8(model: Model, rep: Report, cg: CallGraph, rule: str = "C03.H8"):
+    """Tables keyed by sub-circuits exist only where they were read."""
+    rep.rule(rule, "no function other than the reviewed ones keys a dictionary (subscript, get / setdefault / pop, display key) by an expression whose static type admits a "
+                   "sub-circuit (ICircuitOperation and below): sub-circuits compare by value without their graph (H4 / C05.K4), and listing a circuit makes sibling blocks equal, "
+                   "so such a table answers for the wrong block once the circuit has been looked at")
+    ico = model.cls("ICircuitOperation")
+    comp = model.cls("ICircuitCompositeOperation")
+
+    def admits_composite(t) -> bool:
+        if t is None or t.cls is None or t.is_class_obj:
+            return False
+        c = t.cls
+        return c.is_subclass_of(comp) or comp.is_subclass_of(c) and c.is_subclass_of(ico) or c is ico
+    n = 0
+    for f in model.all_functions():
+        env = cg.env(f)
+        for x in ast.walk(f.node):
+            keys = []
+            if isinstance(x, ast.Subscript) and not isinstance(x.slice, ast.Slice):
+                keys.append(x.slice)
+            elif isinstance(x, ast.Call) and isinstance(x.func, ast.Attribute) and x.func.attr in ("get", "setdefault", "pop") and x.args:
+                keys.append(x.args[0])
+            elif isinstance(x, ast.Dict):
+                keys.extend(k for k in x.keys if k is not None)
+            elif isinstance(x, ast.DictComp):
+                keys.append(x.key)
+            for k in keys:
+                try:
+                    t = env.type_of(k)
+                except Exception:
+                    t = None
+                if not admits_composite(t):
+                    continue
+                n += 1
+                owner = f.qualname
+                ok = owner in OPERATION_KEYED_TABLES
+                if not ok and is_private_helper(f):
+                    # a helper split off a reviewed function is part of it
+                    callers, work, seen_c = [], [f], set()
+                    while work:
+                        g = work.pop()
+                        for c in syntactic_callers(model, g):
+                            if c in seen_c:
+                                continue
+                            seen_c.add(c)
+                            (work if is_private_helper(c) else callers).append(c)
+                    ok = bool(callers) and all(c.qualname in OPERATION_KEYED_TABLES for c in callers)
+                rep.check(ok, rule, f"{owner}[table keyed by {ast.unparse(k)[:40]}]", f"{f.module.relpath}:{x.lineno}", found=f"key of static type {t.cls.name}",
+                          required="only the reviewed tables: " + ", ".join(sorted(OPERATION_KEYED_TABLES)),
+                          what=f"{owner} keys a table by circuit operations that may be sub-circuits: two different sub-circuits compare and hash equal once a listing has handed them "
+                               "the same link (H4), so the table returns the entry of the other block -- the answer depends on whether the circuit was listed before", detail="keyed-table")
+    rep.floor(f"{rule} tables keyed by operations", n, 4)
 
 
 def h7(model: Model, rep: Report, cg: CallGraph, ef: Effects, rule: str = "C03.H7", keep=None):
